@@ -234,6 +234,19 @@ def run(ctx):
             for cname in inames:
                 judge_ident(ctx, nm, nm, (), cname, ID_CONTEXTS[cname])
                 judge_ident(ctx, "ns." + nm, nm, ("ns",), cname, ID_CONTEXTS[cname])
+    if ctx.shard == 2 % ctx.nshards:
+        for nm in L.HEXLIKE_IDENTS:
+            for cname in inames:
+                judge_ident(ctx, nm, nm, (), cname, ID_CONTEXTS[cname])
+                judge_ident(ctx, "ns." + nm, nm, ("ns",), cname, ID_CONTEXTS[cname])
+            ctx.cls("ident:hexlike")
+        for sp in ("1" + "0" * 31, "12345678901234567890123456789012", "1234567890123456789012345e123456",
+                   "12345678901234567890123456789e12", "20200101", "0" * 32, "-" + "1" * 31, "+" + "1" * 31):
+            kind = "float" if "e" in sp else "int"
+            exp = {"val": sp, "py": float(sp) if kind == "float" else int(sp)}
+            for cname, cterm in list(CONTEXTS.items())[:4]:
+                judge_literal(ctx, kind, sp, exp, cname, cterm)
+            ctx.cls("literal:shape-of-another-kind")
     # identifiers that are (case variants of) built-in function names: a field reference is
     # never a function call, and its spelling is kept letter for letter
     from ..ref.functable import ARITY
